@@ -647,6 +647,9 @@ def facts_at(ctx: Ctx, f: FunctionInfo, n: Node) -> List[Tuple[str, ast.AST, int
                 add("false", e.operand, at, depth + 1)
             elif pol == "false":
                 add("true", e.operand, at, depth + 1)
+        elif isinstance(e, ast.Call) and isinstance(e.func, ast.Name) and e.func.id == "bool" and len(e.args) == 1 and not e.keywords \
+                and pol in ("true", "false"):
+            add(pol, e.args[0], at, depth + 1)  # bool(x) is true exactly when x is truthy
         elif isinstance(e, ast.Compare) and len(e.ops) == 1 and isinstance(e.comparators[0], ast.Constant) \
                 and e.comparators[0].value is None and isinstance(e.ops[0], (ast.Is, ast.IsNot)) and pol in ("true", "false"):
             isnone = isinstance(e.ops[0], ast.Is) == (pol == "true")
